@@ -193,6 +193,7 @@ fn exec(shared: &Shared, role: &str, op: &Op) -> RetRec {
 }
 
 pub struct RunOutcome {
+    pub imprecise: bool,
     pub steps: usize,
     pub hang: Option<String>,
     pub stuck: bool,
@@ -424,9 +425,10 @@ impl<'a> Driver<'a> {
         let mut list_pos = 0usize;
         let mut pending_polls: HashMap<String, u32> = HashMap::new();
         let mut idle_steps = 0usize;
+        let mut imprecise = false;
         let mut id_key: HashMap<i64, i64> = HashMap::new();
 
-        while hang.is_none() && (step_no as usize) < max_steps {
+        while hang.is_none() && !imprecise && (step_no as usize) < max_steps {
             // ---- choose
             let mut choice: Option<(String, i64)> = None; // (actor, advance)
             let in_list = list.as_ref().map(|steps| list_pos < steps.len()).unwrap_or(false);
@@ -556,8 +558,26 @@ impl<'a> Driver<'a> {
                 Ok(Status::Exited { panicked }) => (if panicked { "DEAD".to_string() } else { "END".to_string() }, 0),
                 Ok(Status::Running) => unreachable!(),
                 Err(_) => {
-                    hang = Some(format!("{} granted at {} did not reach its next schedule point", actor, site));
-                    ("HANG".to_string(), 0)
+                    // Is the thread waiting for a lock that a PARKED thread holds (an artefact of parking a thread inside a
+                    // critical section), or is there a real cycle? Let the other threads move and see whether it comes loose.
+                    let mut resolved = false;
+                    'resolve: for _round in 0..4 {
+                        for other in &roles {
+                            if other == &actor { continue; }
+                            if let Some(Status::Parked { .. }) = sched.status(other) {
+                                sched.grant(other);
+                                let _ = sched.wait_settled(other, Duration::from_millis(1500));
+                                if !matches!(sched.status(&actor), Some(Status::Running)) { resolved = true; break 'resolve; }
+                            }
+                        }
+                    }
+                    if resolved {
+                        imprecise = true;
+                        ("IMPRECISE".to_string(), 0)
+                    } else {
+                        hang = Some(format!("{} granted at {} did not reach its next schedule point, and letting every other thread run did not release it", actor, site));
+                        ("HANG".to_string(), 0)
+                    }
                 }
             };
             if actor == "sweeper" && (next == "S_Done" || next == "S_Tick" || next == "END" || next == "DEAD") { ctl.sweeper_holds = None; }
@@ -611,13 +631,14 @@ impl<'a> Driver<'a> {
             }
             // what the sketch really estimates for the keys named in this step's admission events
             let mut truth: Vec<Vec<i64>> = Vec::new();
+            let events_for_truth: Vec<EvRec> = if hang.is_none() && !imprecise { events.clone() } else { Vec::new() };
             for event in &events {
                 if event.e == "send" && event.f.len() > 2 && event.f[2] > 0 {
                     if let Some(current) = ctl.current_op.get(&actor) { id_key.insert(event.f[2], current.k); }
                 }
             }
             for entry in &state.kw { id_key.insert(entry.id, entry.k); }
-            for event in &events {
+            for event in &events_for_truth {
                 let ids: Vec<i64> = match event.e.as_str() {
                     "sample" | "refill" => { let mut ids = vec![event.f[0]]; ids.extend(event.f.iter().skip(2).step_by(3).copied()); ids }
                     "victim" => vec![event.f[0]],
@@ -635,7 +656,8 @@ impl<'a> Driver<'a> {
                     }
                 }
             }
-            state = ctl.state();
+            // (after a hang the blocked thread may hold map guards: do not touch the cache any more)
+            if hang.is_none() && !imprecise { state = ctl.state(); }
             for entry in &state.kw { id_key.insert(entry.id, entry.k); }
             self.emit(&StepRec {
                 t: "step".to_string(), run: self.run_no, i: step_no, actor: actor.clone(), site, arg: clamp(arg), next, narg: clamp(narg),
@@ -646,11 +668,11 @@ impl<'a> Driver<'a> {
         // ---- end of run
         self.emit(&StepRec {
             t: "end".to_string(), run: self.run_no, i: step_no + 1, actor: "env".to_string(),
-            site: if hang.is_some() { "E_Hang".to_string() } else if stuck { "E_Stuck".to_string() } else { "E_End".to_string() },
+            site: if hang.is_some() { "E_Hang".to_string() } else if imprecise { "E_Imprecise".to_string() } else if stuck { "E_Stuck".to_string() } else { "E_End".to_string() },
             arg: 0, next: "".to_string(), narg: 0, op: idle_op(), ret: RetRec { st: -1, v: -1, exp: -1, ..Default::default() }, ev: Vec::new(), truth: Vec::new(),
             pc: ctl.pcs(), s: state.clone(), cfg: None,
         });
-        let outcome = RunOutcome { steps: step_no as usize, hang: hang.clone(), stuck, schedule: schedule_log };
+        let outcome = RunOutcome { imprecise, steps: step_no as usize, hang: hang.clone(), stuck, schedule: schedule_log };
         if hang.is_some() {
             // threads may be blocked for ever: the caller of run() must end the process
             return outcome;
@@ -659,9 +681,21 @@ impl<'a> Driver<'a> {
         shared.next_op.lock().unwrap().clear();
         shared.stop.store(true, Ordering::SeqCst);
         sched.free();
-        cache.shutdown();
-        for join in joins { let _ = join.join(); }
+        // the rest runs freely (real concurrency): a stall here is a real deadlock, not an artefact of the scheduler
+        let (done_sender, done_receiver) = std::sync::mpsc::channel();
+        {
+            let cache = cache.clone();
+            std::thread::spawn(move || {
+                cache.shutdown();
+                for join in joins { let _ = join.join(); }
+                let _ = done_sender.send(());
+            });
+        }
         verif::uninstall();
+        if done_receiver.recv_timeout(self.step_timeout * 2).is_err() {
+            return RunOutcome { imprecise, steps: outcome.steps, hang: Some("the run did not wind down when every thread was released (free-running deadlock)".to_string()),
+                                stuck: outcome.stuck, schedule: outcome.schedule };
+        }
         outcome
     }
 }
